@@ -204,13 +204,25 @@ class Worker:
                     raise RuntimeError("could not establish a held association")
                 held.append(p)
             # established associations: their threads are alive
-        self.set_policy(req, rcalled, own, m, ident[2] if ident else "absent")
-        del self.fired[:]
-        self.fired_id = []
+        mode = ident[2] if ident else "absent"
+        # late: the peer has already connected (its acceptor thread is waiting for the A-ASSOCIATE-RQ) when the policy
+        # handler is bound on the running server - the bind must reach that association too
+        late = mode != "absent" and (sum(calling) + len(req)) % 3 == 0
         uid = None
         if ident:
             uid = (ident[0], b"user", b"secret", ident[1])
-        peer = rp.RawPeer(self.addr)
+        if late:
+            self.set_policy(req, rcalled, own, m, "absent")
+            peer = rp.RawPeer(self.addr)
+            t0 = time.monotonic()
+            while len(self.ae.active_associations) <= len(held) and time.monotonic() - t0 < 1.0:
+                time.sleep(0.002)
+            self.set_policy(req, rcalled, own, m, mode)
+        else:
+            self.set_policy(req, rcalled, own, m, mode)
+            peer = rp.RawPeer(self.addr)
+        del self.fired[:]
+        self.fired_id = []
         peer.send(rp.build_rq(called, calling, user_identity=uid))
         first = peer.recv_pdu(5.0)
         verdict = rp.classify(first)
